@@ -473,6 +473,16 @@ Definition dU : dec uproto := fun l =>
   match l with i :: a :: b :: c :: d :: cs :: ce :: r => Some (mkU i a b c d cs ce, r) | _ => None end.
 Definition eUIds (l : list uproto) : list Z := eList (fun p => [uid p]) l.
 
+(* ---------- hmm_detection.get_ruleset with --hmmdetection-limit-to-rule-names: `name_subset` is a set of str,
+     rules = filter(lambda rule: rule.name in name_subset, ruleset.rules)
+   the rules of the files (numbered 0 .. n-1 in file order) that the selection names, in FILE order; `en` = an
+   enumeration of the set of selected names (ids; only membership is asked of it).  select_in_set_order is the variant
+   that fetches the rules while iterating the set: [get_rule_by_name(name) for name in name_subset] *)
+Definition select_rules (n : Z) (en : list Z) : list Z :=
+  filter (fun i => existsb (Z.eqb i) en) (map Z.of_nat (seq 0 (Z.to_nat n))).
+Definition select_in_set_order (n : Z) (en : list Z) : list Z :=
+  filter (fun i => (0 <=? i) && (i <? n)) en.
+
 Definition run_C17 (fn : Z) (l : list Z) : list Z :=
   match fn with
   | 1 => C13.Model.run_refine true l
@@ -557,5 +567,9 @@ Definition run_C17 (fn : Z) (l : list Z) : list Z :=
            end
          | None => bad_input
          end
+  | 20 => match l with
+          | n :: r => match dList dZ r with Some (en, []) => eList (fun i => [i]) (select_rules n en) | _ => bad_input end
+          | _ => bad_input
+          end
   | _ => bad_input
   end.
